@@ -2,8 +2,6 @@ package core
 
 import (
 	"fmt"
-	"os"
-	"path/filepath"
 	"runtime/debug"
 
 	"github.com/bitcoin-sv/block-headers-service/domains"
@@ -102,6 +100,9 @@ type Ctx struct {
 	Consistent bool // store labels and tip agree with the model (C01 holds here)
 	Rep        *Report
 	BIdx       int
+	// FirstVisit is false when this history was already visited on another path (the walk
+	// revisits shared prefixes so that every path runs on one continuous service instance).
+	FirstVisit bool
 }
 
 // ReplayInfo is the replayable identity of a state.
@@ -204,8 +205,12 @@ func CheckConsistent(rows []Row, t *Tree) (bool, string) {
 	return true, ""
 }
 
-// Walk explores every arrival order of every subset of the universe's nodes (DFS; a
-// successor store is a file copy of its parent's store plus one real Add).
+// Walk explores every arrival order of every subset of the universe's nodes. Every maximal
+// arrival order is executed on ONE continuous instance of the service stack (fresh template
+// copy, the real Add for every step) and the visitor runs in every prefix state of it, so
+// that whatever an instance remembers between calls (caches, cursors) is exercised across
+// the following transitions too. A prefix shared by several orders is therefore visited
+// once per order; Report.States counts distinct histories, Evaluations counts visits.
 func Walk(u *Universe, forbidden int, bidx int, rep *Report, v Visitor, o WalkOpts) {
 	if forbidden > 0 {
 		defer SetForbidden(u.H[forbidden])()
@@ -217,54 +222,92 @@ func Walk(u *Universe, forbidden int, bidx int, rep *Report, v Visitor, o WalkOp
 	if depth == 0 || depth > n {
 		depth = n
 	}
-	root := NewRig(o.RigOpts)
-	defer root.Close()
-	var rec func(parent *Rig, seq []int, used []bool)
-	rec = func(rig *Rig, seq []int, used []bool) {
+	var nodes []int
+	for k := 1; k <= n; k++ {
+		if k != forbidden {
+			nodes = append(nodes, k)
+		}
+	}
+	if depth > len(nodes) {
+		depth = len(nodes)
+	}
+	seen := map[string]bool{}
+	dead := map[string]bool{} // prefixes after which model and store diverged (pruned)
+	var paths [][]int
+	var rec func(cur []int, used map[int]bool)
+	rec = func(cur []int, used map[int]bool) {
+		if len(cur) == depth {
+			paths = append(paths, append([]int{}, cur...))
+			return
+		}
+		for _, k := range nodes {
+			if !used[k] {
+				used[k] = true
+				rec(append(cur, k), used)
+				used[k] = false
+			}
+		}
+	}
+	rec(nil, map[int]bool{})
+	key := func(seq []int) string { return fmt.Sprint(seq) }
+	for _, path := range paths {
 		if rep.Expired() {
 			return
 		}
-		model := ModelOf(u, forbidden, seq)
-		rows := DumpHeaders(rig.DB)
-		ok, _ := CheckConsistent(rows, model)
-		c := &Ctx{U: u, Forbidden: forbidden, Seq: seq, Rig: rig, Model: model, Rows: rows, Consistent: ok, Rep: rep, BIdx: bidx}
-		rep.States++
-		if !o.OnlyFinal || len(seq) == depth {
-			v.State(c)
-		}
-		if len(seq) >= depth {
-			return
-		}
-		for node := 1; node <= n; node++ {
-			if used[node] || node == forbidden {
-				continue
+		// skip a path whose prefix is known to diverge (already reported once)
+		skip := false
+		for k := 1; k <= len(path); k++ {
+			if dead[key(path[:k])] {
+				skip = true
 			}
+		}
+		if skip {
+			continue
+		}
+		rig := NewRig(o.RigOpts)
+		for k := 0; ; k++ {
+			cur := path[:k]
+			model := ModelOf(u, forbidden, cur)
+			rows := DumpHeaders(rig.DB)
+			ok, _ := CheckConsistent(rows, model)
+			c := &Ctx{U: u, Forbidden: forbidden, Seq: cur, Rig: rig, Model: model, Rows: rows, Consistent: ok, Rep: rep, BIdx: bidx}
+			first := !seen[key(cur)]
+			if first {
+				seen[key(cur)] = true
+				rep.States++
+			}
+			c.FirstVisit = first
+			if !o.OnlyFinal || k == depth {
+				v.State(c)
+			}
+			if k == len(path) {
+				break
+			}
+			node := path[k]
 			ti := transInfo(model, u, node)
-			childPath := filepath.Join(Scratch(), fmt.Sprintf("w%d.db", storeSeq.Add(1)))
-			CopyFile(rig.Path, childPath)
-			child := OpenRig(childPath, o.RigOpts)
-			res := SafeAdd(child.Svc.Chains, u.Raw[node].Source())
-			rep.Transitions++
+			res := SafeAdd(rig.Svc.Chains, u.Raw[node].Source())
 			rep.Executions++
-			nseq := append(append([]int{}, seq...), node)
-			cm := ModelOf(u, forbidden, nseq)
-			crow := DumpHeaders(child.DB)
-			cok, _ := CheckConsistent(crow, cm)
-			cc := &Ctx{U: u, Forbidden: forbidden, Seq: nseq, Rig: child, Model: cm, Rows: crow, Consistent: cok, Rep: rep, BIdx: bidx}
-			rep.Outcome("add:" + ti.Class() + "->" + res.Code())
-			descend := v.Transition(cc, ti, res)
-			if descend && cok && res.Code() == "stored" {
-				used[node] = true
-				rec(child, nseq, used)
-				used[node] = false
-			} else if !cok || res.Code() != "stored" {
-				rep.Outcome("pruned_divergent")
+			nseq := path[:k+1]
+			nfirst := !seen[key(nseq)]
+			if nfirst {
+				rep.Transitions++
+				rep.Outcome("add:" + ti.Class() + "->" + res.Code())
 			}
-			child.Close()
-			_ = os.Remove(childPath)
+			cm := ModelOf(u, forbidden, nseq)
+			crow := DumpHeaders(rig.DB)
+			cok, _ := CheckConsistent(crow, cm)
+			cc := &Ctx{U: u, Forbidden: forbidden, Seq: nseq, Rig: rig, Model: cm, Rows: crow, Consistent: cok, Rep: rep, BIdx: bidx, FirstVisit: nfirst}
+			descend := v.Transition(cc, ti, res)
+			if !descend || !cok || res.Code() != "stored" {
+				if !cok || res.Code() != "stored" {
+					rep.Outcome("pruned_divergent")
+				}
+				dead[key(nseq)] = true
+				break
+			}
 		}
+		rig.Close()
 	}
-	rec(root, nil, make([]bool, n+1))
 }
 
 // ReplaySeq re-executes one history (no search): every prefix of seq is a visited state and
